@@ -99,6 +99,15 @@ CLAIMS["C15"] = dict(
     note="sciris.asd is third-party: only clip/accept rule modelled and checked on logged traces; pso/hyperopt only statically; aliasing below protocol level observed by snapshots.",
     design="8.C15")
 
+CLAIMS["C16"] = dict(
+    technique="Lean 4 theorems about a model of the time-dependent-values table (encode/decode), the y-factor table (save/load) and the Covout cache state machine + correspondence with the real writers/readers through xlsxwriter/openpyxl, with whole-project spreadsheet/pickle round trips and paired simulations (modes A, E)",
+    text="Proof: tdve_roundtrip (decode (encode e) = canon e for every well-formed entry), tdve_content, tdve_idempotent; yfactor_roundtrip / yfactor_transfer / load_skips_unknown / load_keeps_missing for every parameter set and file; "
+         "cache_coherent (the derived tables equal what the constructor derives from the visible data after every operation sequence), behaves_as_visible, behaves_as_reimport; kernel-checked witnesses for the defects found. "
+         "Real write()/from_rows(), calibration_spreadsheet()/load_calibration() and Covout/ProgramSet operations are diffed against the model; every library project and generated databooks/program books are exported, re-imported, "
+         "compared as content and simulated on both sides (bit-identical on the second round trip); Project/Result save/load compared bit for bit.",
+    note="Partial: xlsxwriter/openpyxl/pandas cell I/O, '%.16G' number formatting, pickle and migration are runtime behaviour the model does not contain; they are sampled by mode E only. Transfer/interaction tables and the program-effects rows are compared as content, not modelled.",
+    design="8.C16")
+
 CLAIMS["C05"] = dict(
     technique="Lean 4 induction over time on a keyring model (Atomica.Timed) refined to the engine model's timed compartments + row-count table and impulse-response correspondence with TimedCompartment (modes A, B)",
     text="Proof: rows_spec (n = k when D is k steps up to rounding, 1 when D < dt); keyring_closed_form / flush_exact / no_early_release / occupancy_bound for every n >= 1 and every inflow history by induction on time; "
